@@ -27,6 +27,10 @@ TRUSTED = [
     "buffer handed over are OOB; gcc -O2 -fwrapv build of the .c files",
     "Python glue: case generators, numpy buffers with a 16-byte 0xAA guard behind every output, result canonicalisation",
     ".pyx source vs compiled .c: compared line by line (harness.common.pyx_vs_c); the binary is what is run",
+    "translators/dispatch2coq.py (Python ast -> Gallina decision functions of encoding.read_plain and of the (bit width, selfmade) chains "
+    "of core.read_data_page / read_data_page_v2; leaves recognised by call shape), translators/writer2coq.py (NumpyIO scratch-buffer scripts of "
+    "writer.make_definitions / encode_dict; encode_plain on the not-null mask = Impl/WLevels.wr_bools, tied by the convert_bool relation) and its prelude Impl/Dispatch.v (numpy frombuffer = "
+    "fixed-width little-endian items; array view of own pages); compared on every run with the decoder calls observed in the real readers",
 ]
 
 
@@ -45,9 +49,16 @@ def run(ctx):
                        "source and compiled code differ; the property is shown for the compiled code only: %r" % (diffs[:5],))
         C.shadow()
         ctx.rule = K.RULE
+        # translator: the Python-level dispatch around the codecs (encoding.read_plain, the index-decoder chains of the page
+        # readers) regenerated as Gallina, theorems re-proved on it; its decision tables feed a correspondence below
+        from harness import codec_dispatch as D
+        mode, K.DISPATCH_TAB = D.translate_dispatch(ctx)
+        wmode = D.translate_writer(ctx)
+        del K.WRITER_OBS[:]
         cases = K.generate(ctx.rng, ctx.quick())
         K.check_cases(ctx, "C11", cases, os.path.join(ctx.scratch, "real"), sanitize=False)
         ctx.extra["lattice"] = K.lattice_summary(cases)
+        D.writer_correspondence(ctx, wmode, K.WRITER_OBS)
         K.extraction_agreement(ctx, cases, os.path.join(ctx.scratch, "vm"), n=24 if ctx.quick() else 100)
     finally:
         coq_thread.join()
